@@ -248,6 +248,26 @@ class Inference(object):
             else:
                 likelihoods[var] = (list(cpd.state_names[var]), cpd.values)
 
+        if isinstance(self.model, MarkovNetwork):
+            # A Markov network takes the likelihood of each variable as one more
+            # unary factor (in the state order the network uses for that variable).
+            mn = self.model.copy()
+            for var, (states, likelihood) in likelihoods.items():
+                reference = next(
+                    factor for factor in mn.get_factors() if var in factor.variables
+                ).state_names[var]
+                order = [states.index(state) for state in reference]
+                mn.add_factors(
+                    DiscreteFactor(
+                        [var],
+                        [len(reference)],
+                        likelihood[order],
+                        state_names={var: list(reference)},
+                    )
+                )
+            self.__init__(mn)
+            return
+
         bn = self.model.copy()
         for var, (states, likelihood) in likelihoods.items():
             new_var = "__" + str(var)
